@@ -89,7 +89,7 @@ func c03model(c *Ctx) {
 	}
 	it := m.it
 	it.symbolic = true
-	it.maxDepth = 12
+	it.maxDepth = 48
 	it.maxLoop = 256
 	val := map[string]float64{"__ranks": 1}
 	it.valuation = val
